@@ -285,7 +285,30 @@ def sync_histories(s):
     s.do(op='rc_get', v=39, name='VCPU')
 
 
+def joint_overflow(s):
+    """C01: several consumers of one request land on one inventory that others
+    already use: each amount fits, their sum fits an empty inventory, but
+    together with the existing usage it does not."""
+    s.mk('p1')
+    s.mk('p2', 'p1')
+    s.invs('p1', VCPU=10, DISK_GB=INV(20, num=1, den=2), MEMORY_MB=INV(8, reserved=2, num=2))
+    s.invs('p2', VCPU=INV(4, num=3, den=2))
+    s.put('c3', {'p1': {'VCPU': 4, 'DISK_GB': 4, 'MEMORY_MB': 4}, 'p2': {'VCPU': 2}})
+    for v in (13, 28, 39):
+        s.post([s.entry('c1', {'p1': {'VCPU': 5}}, cgen=-1), s.entry('c2', {'p1': {'VCPU': 5}}, cgen=-1)], v=v)
+        s.post([s.entry('c1', {'p1': {'DISK_GB': 3}}, cgen=-1), s.entry('c2', {'p1': {'DISK_GB': 4}}, cgen=-1)], v=v)
+        s.post([s.entry('c1', {'p1': {'MEMORY_MB': 4}}, cgen=-1), s.entry('c2', {'p1': {'MEMORY_MB': 5}}, cgen=-1)], v=v)
+        s.post([s.entry('c1', {'p2': {'VCPU': 2}}, cgen=-1), s.entry('c2', {'p2': {'VCPU': 3}}, cgen=-1)], v=v)
+    # the same through the reshaper, and with the sum exactly at the limit (accepted)
+    s.reshape({'p2': {'VCPU': INV(4, num=3, den=2)}},
+              [s.entry('c1', {'p1': {'VCPU': 3}}, cgen=-1), s.entry('c2', {'p1': {'VCPU': 4}}, cgen=-1)])
+    s.post([s.entry('c1', {'p1': {'VCPU': 3}}, cgen=-1), s.entry('c2', {'p1': {'VCPU': 3}}, cgen=-1)])
+    s.post([s.entry('c1', {'p1': {'VCPU': 4}}), s.entry('c2', {'p1': {'VCPU': 3}})])   # 4+4+3 > 10
+    s.reads()
+
+
 SCENARIOS = {
+    'joint_overflow': joint_overflow,
     'sync_histories': sync_histories,
     'f7_empty_write_unknown_consumer': f7_empty_write_unknown_consumer,
     'f9_unknown_provider_new_consumer': f9_unknown_provider_new_consumer,
